@@ -485,14 +485,169 @@ fn c16_cookie_case(leg: &mut Leg, r: &mut Rng, case_seed: u64) {
     let _ = hex(&[]);
 }
 
+/// The limiter the UDP listener consults (two hashed buckets per source, refusals meant to be free) and the listener's
+/// own decision function, on the limiter's clock advanced per thread.
+fn c16_limiter_case(leg: &mut Leg, r: &mut Rng, case_seed: u64) {
+    let b_tokens = ev::GenericTokenBucket::VERIF_MAX_TOKENS as u64;
+    let rate = ev::GenericTokenBucket::VERIF_TOKENS_PER_SECOND as u64;
+    let refill_period = b_tokens.div_ceil(rate.max(1)) as u32;
+    leg.eval();
+    let replay = json!({"engine": "c16-limiter", "case_seed": case_seed});
+    let via_decision = r.bool();
+    let nsrc = r.range(1, 3) as usize;
+    let v6 = r.bool();
+    let srcs: Vec<std::net::IpAddr> = (0..nsrc)
+        .map(|i| {
+            if v6 {
+                let mut b = [0u8; 16];
+                b[0] = 0x20;
+                b[1] = 0x01;
+                b[13] = r.u8();
+                b[14] = r.u8();
+                b[15] = i as u8 + 1;
+                std::net::IpAddr::V6(b.into())
+            } else {
+                std::net::IpAddr::V4(std::net::Ipv4Addr::new(10, r.u8(), r.u8(), i as u8 + 1))
+            }
+        })
+        .collect();
+    let steps = r.range(10, 120);
+    let style = r.below(4);
+    // one query/reply size pair per case, so the number of grants can be turned into tokens
+    let qsize = r.range(17, 300) as usize;
+    let psize = match r.below(4) {
+        0 => qsize,
+        1 => qsize + r.range(0, 60) as usize,
+        2 => r.range(12, 100) as usize,
+        _ => r.range(12, 700) as usize,
+    };
+    let cost = std::cmp::max((psize * 2).saturating_sub(qsize), 200) as u64;
+    let refused_reply = {
+        let m = rn::Msg {
+            id: 9,
+            flags: 0x8105, // QR, RD, rcode 5
+            questions: vec![rn::Question { name: rn::name_from_str("c.example"), qtype: 1, qclass: 1 }],
+            ..Default::default()
+        };
+        ev::parse(&rn::encode(&m, rn::Compress::None)).ok()
+    };
+    let mk_query = |ip: std::net::IpAddr| -> Option<erbium::dns::DnsMessage> {
+        let m = rn::Msg {
+            id: 9,
+            flags: 0x0100,
+            questions: vec![rn::Question { name: rn::name_from_str("c.example"), qtype: 1, qclass: 1 }],
+            ..Default::default()
+        };
+        let b = rn::encode(&m, rn::Compress::None);
+        Some(erbium::dns::DnsMessage {
+            in_size: qsize,
+            in_query: ev::parse(&b).ok()?,
+            local_ip: if v6 { "2001:db8::53".parse().unwrap() } else { "10.0.0.53".parse().unwrap() },
+            remote_addr: ip.with_port(33_000),
+            protocol: erbium::dns::Protocol::Udp,
+        })
+    };
+    let fake_serialised = vec![0u8; psize];
+    // per source: (virtual second, granted)
+    let mut hist: Vec<Vec<(u64, bool)>> = vec![Vec::new(); nsrc];
+    let mut idle_checks = 0u64;
+    let mut denied_total = 0u64;
+    let res = guard::guard(|| {
+        let rt = tokio::runtime::Builder::new_current_thread().enable_all().build().expect("runtime");
+        let lim = ev::VerifLimiter::new();
+        let mut viol: Vec<(String, String)> = Vec::new();
+        let mut t: u64 = 0;
+        let mut last_any: u64 = 0;
+        for step in 0..steps {
+            let dt: u32 = match style {
+                0 => 0,
+                1 => r.below(3) as u32,
+                2 => {
+                    if r.chance(1, 8) {
+                        refill_period + r.below(40) as u32
+                    } else {
+                        r.below(2) as u32
+                    }
+                }
+                _ => {
+                    if r.chance(1, 6) {
+                        r.range(50, 2 * refill_period as u64) as u32
+                    } else {
+                        r.below(20) as u32
+                    }
+                }
+            };
+            if dt > 0 {
+                ev::limiter_clock_advance(dt);
+                t += dt as u64;
+            }
+            let si = r.usize(nsrc);
+            // idle = nothing at all from ANY source of this limiter (sources may share a bucket)
+            let whole_limiter_idle = step > 0 && t - last_any >= refill_period as u64 + 1;
+            let granted = if via_decision {
+                match (mk_query(srcs[si]), refused_reply.as_ref()) {
+                    (Some(q), Some(rep)) => !rt.block_on(lim.should_ratelimit(&q, rep, &fake_serialised)),
+                    _ => return viol,
+                }
+            } else {
+                rt.block_on(lim.check(srcs[si], cost as usize))
+            };
+            hist[si].push((t, granted));
+            if !granted {
+                denied_total += 1;
+            }
+            if whole_limiter_idle && cost <= b_tokens {
+                idle_checks += 1;
+                if !granted {
+                    viol.push((
+                        "limiter/quiet-source-gets-silence".into(),
+                        format!("nothing was sent to this limiter for {} s (refill period {} s), yet the next refused query (cost {} tokens, reply {} / query {} octets) from {} is dropped; {} earlier attempts had been dropped", t - last_any, refill_period, cost, psize, qsize, srcs[si], denied_total - 1),
+                    ));
+                }
+            }
+            last_any = t;
+        }
+        viol
+    });
+    leg.class(format!("limiter|{}|style{}|src{}|cost{}|denied{}", if via_decision { "decision" } else { "check" }, style, nsrc, if cost == 200 { "min" } else if cost > b_tokens { "over" } else { "mid" }, denied_total.min(3)));
+    leg.count("limiter_idle_gap_checks", idle_checks);
+    leg.count("limiter_attempts_dropped", denied_total);
+    leg.count("limiter_attempts", hist.iter().map(|h| h.len() as u64).sum());
+    match res {
+        Err(p) => leg.violation(format!("C16/limiter-panic/{}", p.class()), format!("{} at {}", p.message, p.location), replay),
+        Ok(viol) => {
+            for (sig, d) in viol {
+                leg.violation(format!("C16/{}", sig), d, replay.clone());
+            }
+            // per source, every window: tokens granted <= 2 buckets * (B + R*dt)
+            for (si, h) in hist.iter().enumerate() {
+                let g: Vec<u64> = h.iter().filter(|x| x.1).map(|x| x.0).collect();
+                let mut bad = None;
+                for i in 0..g.len() {
+                    for j in i..g.len() {
+                        let tokens = (j - i + 1) as u64 * cost;
+                        let bound = 2 * (b_tokens + rate * (g[j] - g[i]));
+                        if tokens > bound && bad.is_none() {
+                            bad = Some((tokens, bound, g[i], g[j]));
+                        }
+                    }
+                }
+                if let Some((tokens, bound, a, b)) = bad {
+                    leg.violation("C16/limiter/burst-exceeds-bound", format!("source {}: {} tokens ({} per reply) granted in [{}, {}] s but 2*(B + R*dt) = {}", srcs[si], tokens, cost, a, b, bound), replay.clone());
+                }
+            }
+        }
+    }
+}
+
 pub fn run_c16(seed: u64, thorough: bool, shards: u64) -> Leg {
     let mut total = Leg::new(
         "c16-bucket-cookie-inproc",
         "C16",
-        "GenericTokenBucket under a virtual clock (start times incl. near 2^31 and 2^32; arrival styles: flood, steady, bursts with idle gaps, sparse; costs 1..3B): every window of grants checked against B + R*dt with B,R read from the code's constants, quiet sources (idle >= B/R) must be granted costs <= B; cookie issue/validate with explicit keys: same addresses under current/previous/older key, other client address, other server address, other client cookie, flipped, truncated, absent; distinct = (arrival style, start class, grants) or (cookie, family)",
+        "GenericTokenBucket under a virtual clock (start times incl. near 2^31 and 2^32; arrival styles: flood, steady, bursts with idle gaps, sparse; costs 1..3B): every window of grants checked against B + R*dt with B,R read from the code's constants, quiet sources (idle >= B/R) must be granted costs <= B; cookie issue/validate with explicit keys: same addresses under current/previous/older key, other client address, other server address, other client cookie, flipped, truncated, absent; the listener's IpRateLimiter (two hashed buckets per source) and its should_ratelimit decision on a per-thread offset of the limiter's own clock, 1-3 sources, floods/bursts/idle gaps: per source every window of grants <= 2*(B + R*dt) tokens at the documented cost max(2*reply-query, 200), and after the whole limiter was idle for the refill period the next refused query must be answered however many attempts were dropped before; distinct = (arrival style, start class, grants) or (cookie, family) or (limiter, entry, style, sources, cost class, drops)",
     );
     total.floor = 500;
-    let n: u64 = if thorough { 600_000 } else { 8_000 };
+    let n: u64 = if thorough { 600_000 } else { 12_000 };
     let mut handles = Vec::new();
     for shard in 0..shards {
         let mut leg = total.child();
@@ -500,10 +655,10 @@ pub fn run_c16(seed: u64, thorough: bool, shards: u64) -> Leg {
             for i in 0..n / shards {
                 let case_seed = seed.wrapping_mul(999_983).wrapping_add(shard * 7_000_003 + i);
                 let mut r = Rng::new(case_seed);
-                if i % 2 == 0 {
-                    c16_bucket_case(&mut leg, &mut r, case_seed);
-                } else {
-                    c16_cookie_case(&mut leg, &mut r, case_seed);
+                match i % 3 {
+                    0 => c16_bucket_case(&mut leg, &mut r, case_seed),
+                    1 => c16_cookie_case(&mut leg, &mut r, case_seed),
+                    _ => c16_limiter_case(&mut leg, &mut r, case_seed),
                 }
             }
             leg.sample(json!({"bucket_capacity_tokens": ev::GenericTokenBucket::VERIF_MAX_TOKENS, "tokens_per_second": ev::GenericTokenBucket::VERIF_TOKENS_PER_SECOND}));
@@ -525,6 +680,8 @@ pub fn replay_c16(v: &serde_json::Value) -> Leg {
     let mut r = Rng::new(cs);
     if v["engine"].as_str() == Some("c16-cookie") {
         c16_cookie_case(&mut leg, &mut r, cs);
+    } else if v["engine"].as_str() == Some("c16-limiter") {
+        c16_limiter_case(&mut leg, &mut r, cs);
     } else {
         c16_bucket_case(&mut leg, &mut r, cs);
     }
